@@ -15,7 +15,7 @@ ASSUME = [
     "Dom/Zone.v and Dom/Oct.v are SPECIFICATION-level models (closed bound matrices): the theorems say the specification "
     "computes the unique exact answer; the C++ graph domains are tied to it by differential testing only",
     "constants of generated constraints are bounded by 2^40 in absolute value (int64 weights of DefaultParams do not check overflow)",
-    "octagons: soundness proved, exactness (completeness of tight closure) is stated but not proved (C12_oct_exact_statement)",
+    "octagons: soundness and exactness (completeness of the tight closure over the integers) are proved about the specification Dom/Oct.v",
     "lifting clause: checked by correspondence and oracle only (same numerical history through the lifted C++ domain must print "
     "exactly the bounds of the specification of its base domain)",
 ]
@@ -53,6 +53,118 @@ def streams(tier):
     ]
 
 
+def _eval1(exe, mode, line, tag):
+    import os
+    cf = os.path.join(vlib.VERIF, "out", "C12", "one-%s.cases" % tag)
+    with open(cf, "w") as f:
+        f.write(line + "\n")
+    if tag == "m":       # the model driver takes the case file as its last argument
+        rc, out = vlib.sh([exe, "--mode=" + mode, cf], timeout=60)
+        for l in out.split("\n"):
+            if l.startswith("R 0"):
+                return l[4:]
+        return "MISSING"
+    r = vlib.run_harness_resilient(exe, ("--mode=" + mode,), cf, 1, timeout=60)
+    return r.get(0, "MISSING")
+
+
+def _split(line):
+    toks = line.split()
+    pre = ""
+    if toks[0] == "P":
+        pre = "P %s " % toks[1]
+        toks = toks[2:]
+    parts = " ".join(toks).split(" ; ")
+    return pre, parts[0], parts[1:]
+
+
+def shrink(hexe, dexe, mode, line, budget=150):
+    """delta-debugging on the operation list: drop operations while both sides still differ"""
+    pre, head, ops = _split(line)
+    mk = lambda o: pre + head + " ; " + " ; ".join(o)
+    n = [0]
+
+    def bad(o):
+        n[0] += 1
+        if n[0] > budget or not o:
+            return False
+        l = mk(o)
+        return _eval1(hexe, mode, l, "h") != _eval1(dexe, mode, l, "m")
+    if not bad(ops):
+        return line
+    a = _eval1(hexe, mode, line, "h").split(" ; "); m = _eval1(dexe, mode, line, "m").split(" ; ")
+    for j, (x, y) in enumerate(zip(a, m)):
+        if x != y:
+            if bad(ops[:j + 1]):
+                ops = ops[:j + 1]
+            break
+    i = len(ops) - 2
+    while i >= 0:
+        t = ops[:i] + ops[i + 1:]
+        if bad(t):
+            ops = t
+        i -= 1
+    return mk(ops)
+
+
+def _mode_of(stream):
+    for name, mode, lang, n, opts, allo in streams("quick"):
+        if name == stream:
+            return mode, lang
+    return None, None
+
+
+def _shrink_replays(rep):
+    """add a minimised history (and the oracle's verdict on it) to every replay file"""
+    import re
+    hexe, e1 = vlib.build_harness("graphdom")
+    dexe, e2 = vlib.build_driver("graphdom")
+    if e1 or e2:
+        return
+    for p, wit, _ in rep.violations:
+        try:
+            txt = open(p).read()
+            ms = re.search(r"^stream=(\S+) case=", txt, flags=re.M)
+            mi = re.search(r"^input: (.*)$", txt, flags=re.M)
+            if not ms or not mi:
+                continue
+            mode, lang = _mode_of(ms.group(1))
+            if mode is None:
+                continue
+            small = shrink(hexe, dexe, mode, mi.group(1))
+            a = _eval1(hexe, mode, small, "h"); m = _eval1(dexe, mode, small, "m")
+            w = graphdom.oracle_for(lang)(small, a, None)
+            with open(p, "a") as f:
+                f.write("shrunk input: %s\nimplementation: %s\nmodel: %s\noracle on the shrunk input: %s\n" % (small, a, m, w))
+        except Exception:
+            pass
+
+
+def replay(path):
+    """re-run one recorded case (the line after 'shrunk input:' if present, else 'input:')"""
+    import re
+    txt = open(path).read()
+    ms = re.search(r"^stream=(\S+) case=", txt, flags=re.M)
+    mi = re.search(r"^shrunk input: (.*)$", txt, flags=re.M) or re.search(r"^input: (.*)$", txt, flags=re.M)
+    if not ms or not mi:
+        print(txt)
+        return 1
+    mode, lang = _mode_of(ms.group(1))
+    hexe, e1 = vlib.build_harness("graphdom")
+    dexe, e2 = vlib.build_driver("graphdom")
+    if e1 or e2 or mode is None:
+        print(e1 or e2 or "unknown stream")
+        return 1
+    line = mi.group(1)
+    a = _eval1(hexe, mode, line, "h"); m = _eval1(dexe, mode, line, "m")
+    print("stream:         %s (--mode=%s)" % (ms.group(1), mode))
+    print("input:          " + line)
+    print("implementation: " + a)
+    print("model:          " + m)
+    print("oracle:         " + str(graphdom.oracle_for(lang)(line, a, None)))
+    return 0 if a == m else 1
+
+
 def run(rep, tier, seed, prove=True):
     rep.cov["trusted_base"] = TRUSTED
     rep.cov["rule"] = ("seeded histories of in-language constraints, joins, meets, forgets, copies, normalize and in-language "
@@ -67,3 +179,5 @@ def run(rep, tier, seed, prove=True):
         vlib.run_stream(rep, name, "graphdom", "graphdom", lines, oracle=graphdom.oracle_for(lang),
                         nontrivial=graphdom.nontrivial, key=lambda l: "history",
                         extra_args=("--mode=" + mode,), oracle_all=allo)
+    if rep.violations:
+        _shrink_replays(rep)
